@@ -52,8 +52,10 @@ def tagged(gen, tag, epr):
 class MemSock2(MemSock):
     """MemSock whose sendall() can be exempt from scripted would-blocks."""
     sendall_blocks = True
+    n_sendall = 0
 
     def sendall(self, data):
+        self.n_sendall += 1
         if self.sendall_blocks:
             return MemSock.sendall(self, data)
         saved, self.block_send = self.block_send, None
@@ -503,6 +505,7 @@ def run_connection(scn, sched, epr, carry, idx):
     out['wire'] = (hashlib.sha256(b''.join(csock.sent_log)).hexdigest()[:16],
                    hashlib.sha256(b''.join(ssock.sent_log)).hexdigest()[:16])
     out['wire_len'] = (sum(map(len, csock.sent_log)), sum(map(len, ssock.sent_log)))
+    out['sendall_calls'] = (csock.n_sendall, ssock.n_sendall)
     if ok:
         if api == 'gen':
             rc = drive2([tagged(client.closeAsync(), tc, epr), tagged(server.closeAsync(), ts, epr)], rng, sig=sig)
@@ -523,6 +526,7 @@ def run_connection(scn, sched, epr, carry, idx):
                                  for i in (0, 1))
             out['asm_close_events'] = (mc.closed_events, ms.closed_events)
         out['closed_flags'] = (bool(client.closed), bool(server.closed))
+    out['sendall_calls'] = (csock.n_sendall, ssock.n_sendall)
     if rf:
         out['reframed'] = (rf[0].n_in, rf[0].n_out, rf[1].n_in, rf[1].n_out)
     if out['hs'][0] == ('ok',):
@@ -609,6 +613,7 @@ class ChunkSock(object):
         self.ss = _sizes(sched.get('send'), '%s/s/%s' % (sched.get('seed'), salt))
         self.sent = hashlib.sha256()
         self.sent_len = 0
+        self.n_sendall = 0
 
     def recv(self, n):
         k = n if self.rs is None else max(1, min(n, next(self.rs, n) or n))
@@ -623,6 +628,7 @@ class ChunkSock(object):
         return sent
 
     def sendall(self, data):
+        self.n_sendall += 1
         data = bytes(data)
         while data:
             k = self.send(data)
@@ -774,6 +780,7 @@ def run_connection_blocking(scn, sched, epr, carry, idx):
     wc, ws = res['c'].get('wire', (None, None)), res['s'].get('wire', (None, None))
     out['wire'] = (wc[0], ws[0])
     out['wire_len'] = (wc[1], ws[1])
+    out['sendall_calls'] = (csock.n_sendall, ssock.n_sendall)
     if hung:
         out['hung'] = True
     for s_ in (a, b):
@@ -816,6 +823,8 @@ def diff_outcomes(base, other, deterministic, reframed=False, api='gen'):
         for k in keys:
             if b.get(k) != o.get(k):
                 d.append((k, i, b.get(k), o.get(k)))
+        if o.get('sendall_calls', (0, 0)) != (0, 0):
+            d.append(('sendall-reached', i, (0, 0), o.get('sendall_calls')))
     if len(base) != len(other):
         d.append(('n_connections', 0, len(base), len(other)))
     return d
@@ -829,12 +838,14 @@ def schedules(rng, n_random, tier):
         dict(recv='one', send='one', block_recv=1),
         dict(recv='rand', send='rand'),
         dict(block_recv=3),
-        dict(block_send=2, sendall_blocks=False),
-        dict(recv='small', send='small', block_recv=1, block_send=1, sendall_blocks=False, interleave='rand'),
-        dict(block_send=1, sendall_blocks=True),                 # would-block may hit flush()
+        dict(block_send=2, sendall_blocks=True),
+        dict(recv='small', send='small', block_recv=1, block_send=1, sendall_blocks=True, interleave='rand'),
+        dict(block_send=1, sendall_blocks=True),                 # would-block on every other send, flights included
+        dict(block_send=3, send='small', sendall_blocks=True),
+        dict(api='asm', block_send=1, block_recv=1, sendall_blocks=True),
         dict(api='asm'),
         dict(api='asm', recv='one', block_recv=1),
-        dict(api='asm', recv='rand', send='rand', block_send=1, sendall_blocks=False),
+        dict(api='asm', recv='rand', send='rand', block_send=1, sendall_blocks=True),
         dict(reframe='bytes'),
         dict(reframe='rand'),
         dict(reframe='merge'),
@@ -847,7 +858,7 @@ def schedules(rng, n_random, tier):
     for _ in range(n_random):
         s = dict(recv=rng.choice(['all', 'one', 'rand', 'small']), send=rng.choice(['all', 'one', 'rand', 'small']),
                  block_recv=rng.choice([0, 0, 1, 2, 'rand']), block_send=rng.choice([0, 0, 1, 'rand']),
-                 sendall_blocks=False, interleave=rng.choice([None, 'rand']),
+                 sendall_blocks=True, interleave=rng.choice([None, 'rand']),
                  api=rng.choice(['gen', 'gen', 'gen', 'asm']))
         if s['api'] == 'gen' and rng.random() < 0.35:
             s['reframe'] = rng.choice(['bytes', 'rand', 'merge', 'head', 'merge-rand'])
